@@ -560,6 +560,8 @@ META["explanation"] += " " + 'Also (rounds 10-11): size -> order conversion (fls
 
 META["explanation"] += " " + 'Also (round 12 and fifth reading): level loops include both end levels, partition loops run while index < bound, the inline fallback is skipped only when start == 0, RT polarity of the work-queue worker, allocator discipline.'
 
+META["explanation"] += " " + 'Also (round 13): an auto-resize destroy forgets caller_resize_attr once it has handed the attribute back, so that a resize step in flight creates its helper threads with default attributes (C09.attr).'
+
 RULES = [
     ("C09.pow2", rule_pow2),
     ("C09.size", rule_size),
